@@ -54,6 +54,7 @@ theorem decomposeRws2_closed (A : Aff) (n p : Rat) (hdet : A.det ≠ 0) (hn : 0 
     simp only [m2, Aff.mul_def, Aff.mul, RWS.mk.injEq]
     refine ⟨by ext <;> simp, ?_, by ext <;> simp [hp']⟩
     ext <;> simp [hne, hpe]
+    all_goals (rw [hp']; field_simp)
   · -- det < 0: flip the last column of R and the last row of WS
     have hR := rws_R0 (a := a) (b := b) (d := d) (e := e) (s := -1) hn hn2 hp (by norm_num) (by rw [h]; ring)
     have hdetR : (m2 (a / n) (-1 * (-d / n)) (d / n) (-1 * (a / n))).det < 0 := by
@@ -66,5 +67,6 @@ theorem decomposeRws2_closed (A : Aff) (n p : Rat) (hdet : A.det ≠ 0) (hn : 0 
     simp only [m2, Aff.mul_def, Aff.mul, RWS.mk.injEq]
     refine ⟨by ext <;> simp, ?_, by ext <;> simp [hp']; ring⟩
     ext <;> simp [hne, hpe]
+    all_goals (rw [hp']; field_simp)
 
 end OdcGeo.C20
